@@ -9,6 +9,15 @@ DRIVER_ROOT = "Comb"
 PROCS = 1  # a case takes ~1 ms: forking a pool costs more than it saves, and one process lets impl / model_request share the run
 THEOREMS = [
     "C13.zip_kth",
+    "C13.zip_completes_when",
+    "C13.cl_emits_after_all",
+    "C13.cl_latest",
+    "C13.wlf_only_primary",
+    "C13.fork_join_last_values",
+    "C13.fork_join_empty_short_circuit",
+    "C13.amb_mirrors_first",
+    "C13.amb2_mirrors_first",
+    "C13.amb_unsub_losers_at_choice",
 ]
 RULE = ("1..4 logged cold/hot sources (times on a 5-tick grid so that simultaneous notifications are frequent; empty, erroring, "
         "never-completing, 'rude' hot sources that keep pushing after unsubscription) under the real operator on TestScheduler, optional "
@@ -28,7 +37,7 @@ OPS = ["zip", "combine_latest", "with_latest_from", "fork_join", "amb", "amb2"]
 
 
 def cases(rng, tier):
-    n = fw.tier_scale(tier, 1800, 20000)
+    n = fw.tier_scale(tier, 4200, 36000)
     for i in range(n):
         op = OPS[i % len(OPS)]
         if op == "amb2":
@@ -178,7 +187,8 @@ def expected(case, log):
                 if s not in last:
                     outs.append((p, 1, t, ["C"]))
                 elif len(dn) == n:
-                    outs.append((p, 0, t, ["N", {"t": [last[i] for i in range(n)]}]))
+                    if all(i in last for i in range(n)):
+                        outs.append((p, 0, t, ["N", {"t": [last[i] for i in range(n)]}]))
                     outs.append((p, 1, t, ["C"]))
     return _cut(outs)
 
@@ -268,7 +278,7 @@ def bucket(case, out):
 def shrink(case):
     for i, s in enumerate(case["srcs"]):
         for j in range(len(s["msgs"])):
-            c = fw.dec_copy(case) if hasattr(fw, "dec_copy") else __import__("copy").deepcopy(case)
+            c = __import__("copy").deepcopy(case)
             del c["srcs"][i]["msgs"][j]
             yield c
     if case.get("dispose") is not None:
